@@ -65,7 +65,7 @@ func c18CarBoundaries(out []byte) map[int]bool {
 // stream at any offset is reported (a CAR cut exactly between two blocks
 // yields the blocks before the cut).
 func VerifC18ReadFaults() {
-	c17Pads = vParam("PADS")
+	c17Pads, c17EqualSizes = 1, true // offsets of section ends must not depend on map iteration order
 	k := 2
 	c17Setup(k, false)
 	format := vChoose("format", 4)
@@ -142,7 +142,7 @@ func (s *c18Sink) Write(p []byte) (int, error) {
 // the buffered call; if the underlying writer fails at any write call -
 // including the final flush of the base64 encoder - the call returns an error.
 func VerifC18WriteFaults() {
-	c17Pads = 3
+	c17Pads, c17EqualSizes = 3, false
 	k := 1 + vChoose("tokens", 2)
 	c17Setup(k, false)
 	format := vChoose("format", 4)
